@@ -193,6 +193,11 @@ void h13_binary_len(void) {
   __CPROVER_assume(len >= 0);
   size_t cap = nondet_size_t();
   __CPROVER_assume(cap <= CQV_MAXBUF);
+#ifdef CQV_CANARIES
+  /* reachability (existential) build only: small buffers keep the printed traces small (an arbitrary-
+   * length havocked slice in a counterexample trace exhausts memory); the proof build is unrestricted */
+  __CPROVER_assume(cap <= 256);
+#endif
   uint8_t *out = malloc(cap), *payload = malloc((size_t)len);
   __CPROVER_assume(out != NULL && payload != NULL);
   carquet_buffer_init_wrap(&g_buf, out, cap);
@@ -210,7 +215,7 @@ void h13_binary_len(void) {
     int32_t rl;
     const uint8_t *p = thrift_read_binary(&g_dec, &rl);
     __CPROVER_assert(g_dec.status == CARQUET_OK && rl == len && p == out + n && g_dec.reader.pos == g_buf.size, "read_binary: same length, slice after the header, consumed == produced");
-    if (len > 1000000) CQV_CANARY("long binary reachable");
+    if (len >= 128) CQV_CANARY("binary with a 2-byte length header reachable");
   } else {
     __CPROVER_assert(cap < n + (size_t)len, "failure only if it does not fit");
     CQV_CANARY("binary that does not fit is an error");
